@@ -74,13 +74,29 @@ import httpcore._async.socks_proxy, httpcore._sync.socks_proxy, httpcore._async.
 # ---------------------------------------------------------------------------------
 # asyncio virtual-time loop
 # ---------------------------------------------------------------------------------
+SPIN_LIMIT = 1_000_000  # loop iterations without virtual time advancing => livelock verdict
+
+
+class Livelock(BaseException):
+    """The event loop kept running without virtual time ever advancing."""
+
+
 class _VSelector:
     def __init__(self, loop) -> None:
         self._sel = selectors.DefaultSelector()
         self._loop = loop
+        self._spin = 0
 
     def select(self, timeout=None):
         loop = self._loop
+        if timeout is not None and timeout <= 0:
+            self._spin += 1
+            if self._spin > SPIN_LIMIT and not loop.hv_livelock:
+                loop.hv_livelock = True
+                if loop.hv_outer_scope is not None:
+                    loop.hv_outer_scope.cancel()
+        else:
+            self._spin = 0
         if timeout is None or timeout > 0:
             hook = loop.hv_on_idle
             if hook is not None:
@@ -101,6 +117,8 @@ class VLoop(asyncio.SelectorEventLoop):
     def __init__(self) -> None:
         self._vtime = T0
         self.hv_on_idle = None
+        self.hv_livelock = False
+        self.hv_outer_scope = None
         sel = _VSelector(self)
         super().__init__(selector=sel)
 
@@ -148,7 +166,10 @@ def run_asyncio(main, net: Net, on_idle=None):
         patch_time(loop.time)
         try:
             with anyio.move_on_after(HORIZON - T0) as scope:
+                loop.hv_outer_scope = scope
                 return await main()
+            if loop.hv_livelock:
+                raise Livelock(f"asyncio loop ran {SPIN_LIMIT} iterations without virtual time advancing")
             if scope.cancelled_caught:
                 raise Hang("virtual watchdog: blocked forever")
         finally:
@@ -174,10 +195,28 @@ def _Clock(on_idle=None):
     return clock
 
 
+class _SpinInstrument(trio.abc.Instrument):
+    def __init__(self) -> None:
+        self.spin = 0
+        self.scope = None
+        self.livelock = False
+
+    def before_io_wait(self, timeout: float) -> None:
+        if timeout <= 0:
+            self.spin += 1
+            if self.spin > SPIN_LIMIT and not self.livelock:
+                self.livelock = True
+                if self.scope is not None:
+                    self.scope.cancel()
+        else:
+            self.spin = 0
+
+
 def run_trio(main, net: Net, seed: int = 0, on_idle=None):
     _trio_run._ALLOW_DETERMINISTIC_SCHEDULING = True
     _trio_run._r = random.Random(seed)
     clock = _Clock(on_idle)
+    spin = _SpinInstrument()
 
     async def outer():
         base = trio.current_time()
@@ -191,14 +230,17 @@ def run_trio(main, net: Net, seed: int = 0, on_idle=None):
         patch_time(now)
         try:
             with trio.move_on_after(HORIZON - T0) as scope:
+                spin.scope = scope
                 return await main()
+            if spin.livelock:
+                raise Livelock(f"trio ran {SPIN_LIMIT} iterations without virtual time advancing")
             if scope.cancelled_caught:
                 raise Hang("virtual watchdog: blocked forever")
         finally:
             unpatch_time()
             simnet.ENV["now"] = None
 
-    return trio.run(outer, clock=clock)
+    return trio.run(outer, clock=clock, instruments=[spin])
 
 
 def run_async(flavor: str, main, net: Net, seed: int = 0, on_idle=None):
